@@ -1,0 +1,68 @@
+//go:build verif
+
+// Contracts for the deductive checks under /verif (comment-only; compiled only with -tags verif).
+// The difficulty rules are restated here from the fork table (params/config.go, params/hf.go) and
+// params/protocol_params.go: divisor 2048 -> 16 (HF5) -> 128 (HF6) -> 1024 (HF8); duration limit
+// 240 -> 180 (HF6); minimum 99999999 -> 100001792 (HF1) -> 30959185800 (HF3) -> 46039386 (HF5);
+// resets to the minimum at the HF1, HF3, HF5 and HF8 blocks; Homestead-style rule before HF2.
+
+package aquahash
+
+//@ macro ishf(config, n, next) = has(config.HF, n) && config.HF[n] != nil && big(config.HF[n]) <= next
+//@ macro athf(config, n, next) = has(config.HF, n) && config.HF[n] != nil && big(config.HF[n]) == next
+//@ macro hdrok(h) = h != nil && h.Number != nil && h.Difficulty != nil && h.Time != nil && big(h.Difficulty) >= 0 && big(h.Number) >= 0
+
+// Homestead-style rule (before HF2): d + d/2048 * max(1 - dt/10, -99), floored on mainnet.
+//@ macro homestead(d, dt) = d + (d / 2048) * imax(1 - dt / 10, 0 - 99)
+
+//@ func calcDifficultyStarting
+//@   requires hdrok(parent) && params.MainnetChainConfig != nil && params.MainnetChainConfig.ChainId != nil
+//@   let mainnet = chainID == old(L(big(params.MainnetChainConfig.ChainId)))
+//@   let hs = homestead(old(big(parent.Difficulty)), U(time) - old(big(parent.Time)))
+//@   ensures[C13] result != nil && big(result) == ite(mainnet, imax(hs, 99999999), hs)
+//@   ensures[C13] big(parent.Difficulty) == old(big(parent.Difficulty)) && big(parent.Time) == old(big(parent.Time)) && big(parent.Number) == old(big(parent.Number))
+//@   nopanic[C13]
+
+//@ func calcDifficultyHF1
+//@   requires hdrok(parent) && params.MainnetChainConfig != nil && params.MainnetChainConfig.ChainId != nil
+//@   let mainnet = chainID == old(L(big(params.MainnetChainConfig.ChainId)))
+//@   let hs = homestead(old(big(parent.Difficulty)), U(time) - old(big(parent.Time)))
+//@   ensures[C13] result != nil && big(result) == ite(mainnet, imax(hs, 100001792), hs)
+//@   ensures[C13] big(parent.Difficulty) == old(big(parent.Difficulty)) && big(parent.Time) == old(big(parent.Time)) && big(parent.Number) == old(big(parent.Number))
+//@   nopanic[C13]
+
+//@ func calcDifficultyHFX
+//@   let next = old(big(parent.Number)) + 1
+//@   let d = old(big(parent.Difficulty))
+//@   let dt = U(time) - old(big(parent.Time))
+//@   let mainnet = old(L(big(config.ChainId)) == L(big(params.MainnetChainConfig.ChainId)))
+//@   let h1 = old(ishf(config, 1, next))
+//@   let h2 = old(ishf(config, 2, next))
+//@   let h3 = old(ishf(config, 3, next))
+//@   let h5 = old(ishf(config, 5, next))
+//@   let h6 = old(ishf(config, 6, next))
+//@   let h8 = old(ishf(config, 8, next))
+//@   let a8 = old(athf(config, 8, next))
+//@   let a67 = old(athf(config, 6, next) || athf(config, 7, next))
+//@   let a5 = old(athf(config, 5, next))
+//@   let a3 = old(athf(config, 3, next))
+//@   let a1 = old(athf(config, 1, next))
+//@   let minimum = ite(h5, 46039386, ite(h3, 30959185800, ite(h1, 100001792, 99999999)))
+//@   let adjust = ite(h8, d / 1024, ite(h6, d / 128, ite(h5, d / 16, d / 2048)))
+//@   let limit = ite(h6, 180, 240)
+//@   let formula = imax(minimum, ite(dt < limit, d + adjust, d - adjust))
+//@   let hs = homestead(d, dt)
+//@   requires config != nil && config.ChainId != nil && hdrok(parent) && !fakedifficultymode
+//@   requires params.MainnetChainConfig != nil && params.MainnetChainConfig.ChainId != nil
+//@   requires !ishf(config, 10, big(parent.Number) + 1)
+//@   ensures[C13] @nonnil result != nil
+//@   ensures[C13] @reset8 a8 ==> big(result) == 46039386
+//@   ensures[C13] @fork67 !a8 && a67 ==> big(result) == formula
+//@   ensures[C13] @reset5 !a8 && !a67 && a5 ==> big(result) == 46039386
+//@   ensures[C13] @reset3 !a8 && !a67 && !a5 && a3 ==> big(result) == 30959185800
+//@   ensures[C13] @hf2 !a8 && !a67 && !a5 && !a3 && h2 ==> big(result) == formula
+//@   ensures[C13] @reset1 !a8 && !a67 && !a5 && !a3 && !h2 && a1 ==> big(result) == 100001792
+//@   ensures[C13] @hf1 !a8 && !a67 && !a5 && !a3 && !h2 && !a1 && h1 ==> big(result) == ite(mainnet, imax(hs, 100001792), hs)
+//@   ensures[C13] @start !a8 && !a67 && !a5 && !a3 && !h2 && !h1 ==> big(result) == ite(mainnet, imax(hs, 99999999), hs)
+//@   ensures[C13] @minimum h2 && !a8 && !a5 && !a3 ==> big(result) >= minimum
+//@   nopanic[C13]
